@@ -612,6 +612,10 @@ func (p *RegProcessor) processBdReq(c2sPayload *pb.C2SWrapper) (*pb.Registration
 					if randVal < cumulativeWeight {
 						ipNet = p.minOverrideSubnets[i].CIDR.IPNet
 						//dstPortOverride = p.minOverrideSubnets[i].Port
+						// the first subnet whose cumulative weight exceeds the draw is the
+						// weighted choice; without the break every later subnet also matches
+						// and the last one would always win.
+						break
 					}
 				}
 
@@ -647,6 +651,7 @@ func (p *RegProcessor) processBdReq(c2sPayload *pb.C2SWrapper) (*pb.Registration
 							ipNet = p.prefixOverrideSubnets[i].CIDR.IPNet
 							dstPortOverride = p.prefixOverrideSubnets[i].Port
 							prefixid = p.prefixOverrideSubnets[i].PrefixId
+							break
 						}
 					}
 
